@@ -138,7 +138,9 @@ class _VersionMatch(GenericEquality, restriction.base):
 
     # TODO: cached_hash?
     def __hash__(self):
-        return hash((self.droprev, self.ver, self.rev, self.negate, self.vals))
+        # hash what __eq__ compares: integer revision, negation folded into the ops
+        rev = int(str(self.rev)) if self.rev else 0
+        return hash((self.droprev, self.ver, rev, self._convert_ops(self)))
 
 
 class VersionMatch(packages.PackageRestriction):
